@@ -509,6 +509,7 @@ def run(shard, rec, rng):
             if len(rec.samples) < 3:
                 rec.sample({"realisation": "copy_context", "ops": ops, "interleavings": len(scheds)})
     anonymous_locals(L, rec, 40)
+    abandoned_response(L, rec)
     # (b) threads
     TOPS = [o for o in OPS if o != "spawn"]
     for _ in range(cfg["thread_scheds"]):
@@ -587,6 +588,55 @@ def anonymous_locals(L, rec, rounds):
         new_s.push(rnd)
         seen_ids.update((id(new_l), id(new_s)))
         del new_l, new_s, px, look
+
+
+def abandoned_response(L, rec):
+    """Fault + schedule: a response produced through LocalManager.make_middleware is started in one context and then
+    abandoned (never exhausted, never closed); its last reference is dropped - and the object finalised - while a
+    sibling context is running.  The sibling's local data is none of its business."""
+    import gc
+
+    loc, stk = L.Local(), L.LocalStack()
+    mgr = L.LocalManager([loc, stk])
+
+    def inner(environ, start_response):
+        loc.x = "request-data"
+        stk.push("request-frame")
+        yield b"first"
+        yield b"second"
+
+    app = mgr.make_middleware(inner)
+    for variant in ("copy_context", "thread"):
+        rec.case()
+        rec.nontrivial(("abandoned-response", variant))
+        rec.observe("abandoned_responses")
+        box = {}
+
+        def start():
+            it = app({}, lambda *a: None)
+            box["it"] = iter(it)
+            box["first"] = next(box["it"])
+
+        def sibling():
+            loc.x = "sibling-data"
+            stk.push("sibling-frame")
+            box.pop("it")  # the last reference to the abandoned response goes away here
+            gc.collect()
+            box["seen"] = (getattr(loc, "x", "MISSING"), stk.top)
+
+        if variant == "copy_context":
+            contextvars.copy_context().run(start)
+            contextvars.copy_context().run(sibling)
+        else:
+            t1 = threading.Thread(target=start)
+            t1.start()
+            t1.join()
+            t2 = threading.Thread(target=sibling)
+            t2.start()
+            t2.join()
+        if box.get("seen") != ("sibling-data", "sibling-frame"):
+            rec.violation("C18/LEAK-release-reached-a-sibling-context", f"an abandoned middleware response was finalised while a sibling context ran ({variant}): the sibling now sees {box.get('seen')!r}",
+                          {"realisation": variant, "scenario": "abandoned-response"}, monitor="reference-store")
 
 
 def stress(L, rec, rng, nops):
